@@ -89,7 +89,7 @@ def gen_oplist(r, acc, n_ops=None, dma_p=0.35):
     n_ops = n_ops or r.randint(2, 12)
     base_shapes = []
     for _ in range(r.choice([1, 2, 2, 3])):
-        base_shapes.append(r.choice([(4, 4, 16), (8, 8, 16), (6, 5, 32), (16, 8, 8), (3, 7, 16), (8, 8, 48), (1, 1, 64), (12, 2, 3), (5, 9, 1), (2, 33, 8)]))
+        base_shapes.append(r.choice([(4, 4, 16), (8, 8, 16), (6, 5, 32), (16, 8, 8), (3, 7, 16), (8, 8, 48), (1, 1, 64), (12, 2, 3), (5, 9, 1), (2, 33, 8), (16, 16, 8), (20, 4, 8), (4, 24, 16)]))
     dts = r.choice([["int8"], ["int8"], ["uint8"], ["int8", "int16"], ["int16"]])
     layouts = r.choice([["NHWC"], ["NHWC", "NHCWB16"], ["NHCWB16"]])
     ops = []
@@ -193,8 +193,10 @@ def gen_oplist(r, acc, n_ops=None, dma_p=0.35):
             # conv / depthwise with weights from constants or from a DMA-filled buffer
             h, w, c = shape
             dw = r.random() < 0.4
-            k = r.choice([(1, 1), (3, 3), (1, 3), (2, 2)])
-            dil = r.choice([(1, 1), (1, 1), (2, 2)])
+            # (kernels beyond 8 rows / columns are executed as several sub-kernels inside one block job: the job still reads the
+            # whole footprint)
+            k = r.choice([(1, 1), (3, 3), (1, 3), (2, 2), (1, 1), (3, 3), (1, 7), (7, 1), (5, 5), (1, 12), (12, 1), (9, 3), (3, 10)])
+            dil = r.choice([(1, 1), (1, 1), (2, 2), (2, 1), (1, 2)])
             st = r.choice([(1, 1), (1, 1), (2, 2), (2, 1), (1, 2), (3, 1), (1, 3)])
             kw_e, kh_e = (k[0] - 1) * dil[0] + 1, (k[1] - 1) * dil[1] + 1
             pad = [0, 0, 0, 0]
@@ -206,6 +208,11 @@ def gen_oplist(r, acc, n_ops=None, dma_p=0.35):
                 continue
             oc = c if dw else r.choice([8, 16, 32])
             ifm_b = pool.fm(shape, layout, dt)
+            prev = ops[-1] if ops else None
+            if prev is not None and prev["t"] != "dma" and prev["ofm"].get("buf", -1) >= 0 and r.random() < 0.5:
+                pb = pool.all[prev["ofm"]["buf"]]
+                if tuple(pb["shape"]) == tuple(shape) and pb["dt"] == dt:
+                    ifm_b = pb  # read what the operation before has just written (the BLOCKDEP between the two matters)
             ofm_b = pool.fm((oh, ow, oc), r.choice(layouts), dt, avoid=(ifm_b["id"],))
             if ofm_b["id"] == ifm_b["id"]:
                 continue
